@@ -194,6 +194,46 @@ def minreach_games():
     return out
 
 
+def offset_tie_games():
+    """a Player-1 / Player-2 root whose successors reach the final state surely and collect large rewards that differ by little in
+    RELATIVE terms but by far more than 1e-6 absolutely (1e10, 1e10+1, 1e10+2; 2e6, 2e6+1/1024): every order of the row. They are
+    different values - a comparison with a relative tolerance calls them equal. The successors also differ in what they collect
+    afterwards, so following the wrong one shows in the diagnostics too."""
+    import itertools
+    out = []
+    for vals in ((1e10, 1e10 + 1, 1e10 + 2), (2e6, 2e6 + 1 / 1024), (3e9 + 1, 3e9)):
+        for kind in ("Player 1", "Player 2"):
+            for perm in itertools.permutations(vals):
+                k = len(perm)
+                F, S = 2 * k + 1, 2 * k + 2
+                tl = [[("act%d" % i, 1 + i) for i in range(k)]]
+                tl += [[(0.5, 1 + k + i), (0.5, F)] for i in range(k)]                 # successor i: reward perm[i], then a coin
+                tl += [[(1, F)] if i % 2 == 0 else [(0.5, F), (0.5, S)] for i in range(k)]   # ... into a state worth i (some lose)
+                tl += [[(1, F)], [(1, S)]]
+                fr = [None] + [[Fr(1, 2), Fr(1, 2)]] * k + [[Fr(1)] if i % 2 == 0 else [Fr(1, 2), Fr(1, 2)] for i in range(k)] + [[Fr(1)], [Fr(1)]]
+                out.append((dict(rewards=[0] + [float(v) for v in perm] + [float(i) for i in range(k)] + [0, 0],
+                                 players=[kind] + ["Probabilistic"] * (2 * k + 2), transition_list=tl, final_states=[F]),
+                            dict(fr=fr, style="pattern")))
+    return out
+
+
+def dup_label_games(games, rng, count):
+    """for `count` of the given games: a player state with two or more actions gets the SAME label on its first two transitions
+    (the rules ask for a string per action, not for distinct strings): the solver works with transitions, so both stay separate
+    moves; the oracle that keys on labels is switched off for them (guard 'any'), model and predicates are not"""
+    out = []
+    pool = [gm for gm in games if any(p != "Probabilistic" and len(row) >= 2 and row[0][1] != row[1][1]
+                                      for p, row in zip(gm[0]["players"], gm[0]["transition_list"]))]
+    rng.shuffle(pool)
+    for g, m in pool[:count]:
+        tl = [list(r) for r in g["transition_list"]]
+        cand = [i for i, (p, row) in enumerate(zip(g["players"], tl)) if p != "Probabilistic" and len(row) >= 2 and row[0][1] != row[1][1]]
+        for i in cand[:2]:
+            tl[i][1] = (tl[i][0][0], tl[i][1][1])
+        out.append((dict(g, transition_list=tl), dict(m, guard="any", dup_labels=True)))
+    return out
+
+
 def extra_families(rng, base, count):
     """the families that came out of the seeded-change rounds, `count` games each, derived from `base` (games whose reward
     loop terminates): orphan states without a losing state; twins spelt with a shared list object (same owner / other
@@ -208,7 +248,7 @@ def extra_families(rng, base, count):
         # with a RELATIVE tolerance would call them equal
         huge.append((dict(g, rewards=[float(10 ** 10 + x) if x > 0 else 0.0 for x in g["rewards"]]), dict(m, offset=True)))
     return (orphan_games(rng, count) + twin_games(base, rng, count) + twin_games(base, rng, count, cross=True)
-            + two_final_games(base, rng, count) + huge)
+            + two_final_games(base, rng, count) + huge + dup_label_games(base + orphan_games(rng, count), rng, count))
 
 
 def orphan_games(rng, count):
